@@ -1,4 +1,4 @@
-//go:build verif
+//go:build verif && vi_blockchain_c21
 
 package blockchain
 
